@@ -301,7 +301,11 @@ pub const HAZARD_FINDINGS: &[(&str, &[&str])] = &[
     ("dup_select", &["C05-same-column-merged"]),
     ("neg_neg", &["C02-double-negation"]),
     ("open_take", &["C07-offset-without-limit", "C07-noop-take-keeps-sort"]),
+    ("wild_except_twice", &["C05-consecutive-exclusions-forget-first"]),
+    ("wild_except_sorted", &["C05-excluded-sort-key-returns"]),
     ("wild_helpers", &["C05-wildcard-helper-leak"]),
+    ("wild_except", &["C05-wildcard-helper-leak"]),
+    ("wild_dup_join", &["C07-wildcard-join-duplicate-names"]),
     ("append_free", &["C01-append-pruning"]),
     ("int_divi", &["C02-sqlite-divi-small-int"]),
     ("unframed_last", &["C04-first-last-frame"]),
@@ -337,6 +341,11 @@ pub fn attribute_with(flags: &[String], known: &Known, failure: &str) -> Option<
         if *h == "open_take" && !(failure.contains("OFFSET") || failure.contains("no such column")) {
             // C07-offset-without-limit / C07-noop-take-keeps-sort are SQL errors; wrong rows of an
             // open-ended take are not covered by them
+            continue;
+        }
+        if *h == "wild_dup_join" && failure == "arity" {
+            // that finding is about references to the shared name (SQL error or the wrong column),
+            // not about the result columns (C05 passes "arity")
             continue;
         }
         if flags.iter().any(|f| f == h) {
